@@ -14,6 +14,7 @@ pub mod c12;
 pub mod c13;
 pub mod c14;
 pub mod c15;
+pub mod c16;
 pub mod c19;
 pub mod c20;
 
@@ -34,6 +35,7 @@ pub fn get(id: &str) -> Option<Box<dyn Prop>> {
     "C13" => Some(Box::new(c13::C13)),
     "C14" => Some(Box::new(c14::C14)),
     "C15" => Some(Box::new(c15::C15)),
+    "C16" => Some(Box::new(c16::C16)),
     "C19" => Some(Box::new(c19::C19)),
     "C20" => Some(Box::new(c20::C20)),
     _ => None,
